@@ -299,7 +299,7 @@ def run(ctx):
                      "constructs of the checked tree, detected by behaviour (wait-for-room, worker tests the command "
                      "timeout itself, dsh() stops the watchdog before returning): %s; the theorems hold for every "
                      "combination; worker waits a grace period and SIGKILLs a command it gave up on (repair of "
-                     "F07-TEARDOWN-WAIT (a); if so, runs with a given-up target are judged by the monitors only): %s"
+                     "F07-TEARDOWN-WAIT (a); if so, the acceptor runs the model variant Cfg.killAfter): %s"
                      % (variant, getattr(ctx, "killafter", None))],
         trusted_base=["Lean 4.33 kernel", "axioms: propext, Classical.choice, Quot.sound at most (audited per theorem)",
                       "hand-written LTS Dsh/Timed.lean + Dsh/TimedK.lean (over Dsh/FanG.lean) tied to dsh.c by trace acceptance",
@@ -380,7 +380,7 @@ def explore(ctx, exe_san, exe, variant, cov, dist):
             if bad is not None:
                 dist["rejects"] += 1
                 if dist["rejects"] <= 3:
-                    ctx.disagreement("Timed LTS (%s, selfcheck=%s, stopwdog=%s) vs dsh.c" % variant,
+                    ctx.disagreement("Timed LTS (%s, selfcheck=%s, stopwdog=%s, killafter=%s) vs dsh.c" % variant,
                                      "projected trace line %d `%s`: %s" % (bad[0], bad[1], bad[2]), T.pack(r))
             else:
                 dist["accepted"] += 1
